@@ -18,7 +18,7 @@
    REAL chunks of every corpus and generated template (Corr/CorrC07.v, families chk and wld),
    before and after the peephole pass, on every run. *)
 From TeraV Require Import Model.Value Model.Instr Model.Slice Model.VFormat Model.VM Model.World0 Model.StackCheck
-  Proofs.StackCheckSlice Proofs.StackCheckProofs Proofs.FormatUtf8.
+  Proofs.StackCheckSlice Proofs.StackCheckProofs Proofs.FormatUtf8 Proofs.CompileChecks.
 Local Open Scope nat_scope.
 
 (* ---------- the validator is sound: entry points ---------- *)
@@ -136,7 +136,37 @@ Theorem C07_written_is_utf8 : forall v c,
   In c (escape_html (format_value v)) -> In c (value_scalars v) \/ (c < 128)%N.
 Proof. exact written_scalars. Qed.
 
+(* ---------- second tier, PARTIAL: the validator accepts what the compiler emits ---------- *)
+
+(* compile_always_checks for an EXPRESSION fragment and a LOCAL port of compile_expr
+   (Proofs/CompileChecks.v: constants, variables, attribute/subscript access, unary and binary
+   operators, and/or, ternary, filters/tests/functions without kwargs): for every tree `e` the
+   chunk compiled for `{{ e }}` has a table that check_table accepts. Missing for the full
+   statement: statements, kwargs, literals with elements, comprehensions, component calls, and
+   a correspondence run for the local port (the shared compiler port is on another branch) —
+   for all of those the guarantee is the validator run on every real chunk (family chk). *)
+Theorem C07_compile_always_checks_partial : forall e : expr,
+  check_table (compile_print e) a_empty (print_table e) = true.
+Proof. exact compile_print_checks. Qed.
+
+(* ... and that is enough: a chunk with ANY accepted table is sound (infer is only a heuristic) *)
+Theorem C07_table_sound :
+  forall (W : Type) (wr : W -> str -> option W) (wd : world) (reg : registry),
+  world_respects wd reg -> world_checked reg wd = true ->
+  forall fuel tpl ae depth c tbl s o,
+  template_good reg wd tpl = true ->
+  check_table c a_empty tbl = true -> refs_resolved reg wd c = true -> blocks_good wd reg s ->
+  match run W wr wd fuel tpl ae depth c 0 s o with
+  | RFail e => e <> ErrPanic /\ e <> ErrOther
+  | ROutOfFuel => True
+  | RDone s' o' =>
+      stack s' = stack s /\ map lf_end_ip (loops s') = map lf_end_ip (loops s) /\
+      length (caps s') = length (caps s) /\ blocks s' = blocks s /\ cur_block s' = cur_block s
+  end.
+Proof. exact table_sound. Qed.
+
 Print Assumptions C07_render_sound.
+Print Assumptions C07_compile_always_checks_partial.
 Print Assumptions C07_component_sound.
 Print Assumptions C07_check_chunk_sound.
 Print Assumptions C07_written_is_utf8.
@@ -168,6 +198,13 @@ Example C07_ex_rejects :
   check_chunk [LoadName [97%N]; LoadName [98%N]; AppendToList; WriteTop] = false /\
   check_chunk [LoadName [97%N]] = false.
 Proof. vm_compute. repeat split. Qed.
+
+(* the local compiler port reproduces the real listing of `{{ false and user.name }}` (the
+   before-optimisation listing used in Props/C09.v) *)
+Example C07_ex_local_port :
+  compile_print (XAnd (XConst (VBool false)) (XAttr (XVar [117%N]) [110%N] false))
+  = [LoadConst (VBool false); JumpIfFalseOrPop 4; LoadName [117%N]; LoadAttr [110%N]; WriteTop].
+Proof. vm_compute. reflexivity. Qed.
 
 (* and the VM model really panics on such chunks: the class the theorems exclude is inhabited *)
 Example C07_ex_panic_is_real :
